@@ -143,6 +143,13 @@ def h_point(h, nfields, nparticles, branch):
         h.prove_eq("T33: kinetic - V + w gamma^2 v^2 + T33_out = c2",
                    kin - veff + w * gsq(v) * v * v + T33o, c2, conc_scale=sc, conc_rtol=1e-6)
         h.prove("returned T > 0", gt(T, 0))
+        # branch selection: the deflagration/hybrid root is sought above the minimum of the
+        # conservation function, the detonation root below it
+        amin = [Sym(t) if t is not None else h.values[n] for n, t, lo, hi in h.inputs if n.startswith("argmin#")][0]
+        if branch == "deton":
+            h.prove("detonation branch: root on the low-temperature side of the minimum", le(T, amin))
+        else:
+            h.prove("deflagration/hybrid branch: root on the high-temperature side of the minimum", ge(T, amin))
     else:
         # no-root exit: the minimiser position is returned although T33 is not matched
         h.prove("minimiser exit only when LHS(min) >= 0", ge(lhs, 0))
